@@ -56,7 +56,21 @@ def wild_base():
                    "TOP", {"x": 4, "x2": 5})
 
 
-BASES = ["equiv_wild", "equiv_rich", "subpipe", "dis_pipe", "map_dyn2", "split2", "structs", "map_pipe", "vf_basic", "vf_sub", "diamond"]
+def alias_base():
+    """a struct type that only parameters of callables behind ALIASED calls have, and literal
+    typed-map / array arguments of calls inside an included pipeline"""
+    from mro import stage, call, pipeline, program, ref, self_, lit, const, struct
+    return program("equiv_alias", [struct("INFO", "string name, float weight, int n")],
+                   [stage("MAKE_INFO", "int x, map<int> tags, int[] ks", "INFO info", {"info": const({"name": "a", "weight": 1.5, "n": 2})}),
+                    stage("USE_INFO", "INFO i, map<float> ws", "int s", {"s": const(3)})],
+                   [pipeline("TOP", "int x", "int s",
+                             [call("MAKER", "MAKE_INFO", binds={"x": self_("x"), "tags": lit({"a": 1, "b": 2, "c": 3}), "ks": lit([4, 5, 6])}),
+                              call("USER", "USE_INFO", binds={"i": ref("MAKER", "info"), "ws": lit({"p": 0.5, "q": 0.25})})],
+                             {"s": ref("USER", "s")})],
+                   "TOP", {"x": 4})
+
+
+BASES = ["equiv_alias", "equiv_wild", "equiv_rich", "subpipe", "dis_pipe", "map_dyn2", "split2", "structs", "map_pipe", "vf_basic", "vf_sub", "diamond"]
 
 
 def norm(p):
@@ -188,6 +202,23 @@ def edits(p):
                     q = copy.deepcopy(p)
                     q["pipelines"][i]["calls"][j]["binds"][bi]["e"]["v"]["f"] = nv
                     yield "change_tiny_float:%s.%s=%s" % (where, b["n"], nv), "semantic", q
+        # a literal typed-map / array argument loses an entry, gains one, changes one
+        for bi, b in enumerate(c["binds"]):
+            if b["e"]["k"] == "lit" and b["e"]["v"]["k"] in ("obj", "arr"):
+                v = mro.untag(b["e"]["v"])
+                variants = []
+                if isinstance(v, dict) and len(v) > 1:
+                    ks = sorted(v)
+                    variants = [("remove_entry_first", {k: v[k] for k in ks[1:]}), ("remove_entry_last", {k: v[k] for k in ks[:-1]}),
+                                ("add_entry", dict(v, zz_new=v[ks[0]])), ("change_entry", dict(v, **{ks[-1]: v[ks[0]]}))]
+                elif isinstance(v, list) and len(v) > 1:
+                    variants = [("remove_element", v[:-1]), ("add_element", v + v[:1]), ("swap_elements", [v[1], v[0]] + v[2:])]
+                for lab, nv in variants:
+                    if nv == v:
+                        continue
+                    q = copy.deepcopy(p)
+                    q["pipelines"][i]["calls"][j]["binds"][bi]["e"] = mro.lit(nv)
+                    yield "literal_%s:%s.%s" % (lab, where, b["n"]), "semantic", q
         for bi, b in enumerate(c["binds"]):
             if b["e"]["k"] == "lit" and b["e"]["v"]["k"] == "int":
                 q = copy.deepcopy(p)
@@ -278,6 +309,12 @@ def edits(p):
                 q["structs"][k]["fields"][fi]["t"] = mro.T("float")
                 yield "struct_retype_member:%s.%s" % (sd["name"], f["n"]), "semantic", q
                 break
+        for fi, f in enumerate(sd["fields"]):
+            if f["t"] == mro.T("float"):
+                q = copy.deepcopy(p)
+                q["structs"][k]["fields"][fi]["t"] = mro.T("int")
+                yield "struct_retype_member_to_int:%s.%s" % (sd["name"], f["n"]), "semantic", q
+                break
     # the shape of a collection of files changes (typed map of files <-> of arrays of files,
     # array of files <-> array of typed maps of files)
     for k, st in enumerate(p["stages"]):
@@ -326,7 +363,7 @@ def invocation(p):
 
 
 def pairs(tier):
-    cat = {p["name"]: p for p in shapes.catalogue() + fshapes.catalogue() + [rich_base(), wild_base()]}
+    cat = {p["name"]: p for p in shapes.catalogue() + fshapes.catalogue() + [rich_base(), wild_base(), alias_base()]}
     out = []
     for name in BASES:
         a = norm(cat[name])
